@@ -195,6 +195,180 @@ def expansion_laws(case):
     return fn
 
 
+def outer_laws(case):
+    """outer[:, :, i, j] == sum_s v_i(s) (x) v_j(s) (same star), contracted with SYMBOLIC coefficient vectors on either side;
+    origin-state fold-down against the direct assembly"""
+    def fn(src=None):
+        src = src or Src()
+        crys, chem, jn, ss, vs = build(case)
+        dim = crys.dim
+        name = 'outer:' + case
+        sym = src.symbolic
+        Nv = vs.Nvstars
+        a = src.reals('a', Nv, -1, 1)
+        obs = []
+        info = src.info(replayer='outer', extra={'case': case})
+        tol = 1e-9
+
+        def ob(n, val):
+            obs.append(('%s:%s' % (name, n), val, dict(info, sig='outer:' + n)))
+        outer = np.asarray(vs.outer)
+        ob('outer-shape', outer.shape == (dim, dim, Nv, Nv))
+        field = {}
+        for i in range(Nv):
+            for s_, vv in zip(vs.vecpos[i], vs.vecvec[i]):
+                field[(i, s_)] = np.asarray(vv, dtype=float)
+        cL, cR = [], []
+        for j in range(Nv):
+            left = sum((a[i] * outer[:, :, i, j] for i in range(Nv)), np.zeros((dim, dim), dtype=object))
+            right = sum((a[i] * outer[:, :, j, i] for i in range(Nv)), np.zeros((dim, dim), dtype=object))
+            dl = np.zeros((dim, dim), dtype=object)
+            dr = np.zeros((dim, dim), dtype=object)
+            for s_ in vs.vecpos[j]:
+                vj = field[(j, s_)]
+                fa = sum((a[i] * field[(i, s_)] for i in range(Nv) if (i, s_) in field), np.zeros(dim, dtype=object))
+                dl = dl + np.outer(fa, vj)
+                dr = dr + np.outer(vj, fa)
+            cL.append(harness.close(np.asarray(left, dtype=object).ravel(), dl.ravel(), tol))
+            cR.append(harness.close(np.asarray(right, dtype=object).ravel(), dr.ravel(), tol))
+        ob('outer-left-contraction', core.And(*cL) if sym else all(cL))
+        ob('outer-right-contraction', core.And(*cR) if sym else all(cR))
+        # origin-state fold-down
+        for elem, attr in (('solute', 'i'), ('vacancy', 'j')):
+            OSi, fold, OSVB = vs.originstateVectorBasisfolddown(elem)
+            want = [n for n in range(Nv) if ss.states[vs.vecpos[n][0]].iszero()]
+            ob('folddown-indices-' + elem, list(OSi) == want)
+            Nsites = len(crys.basis[chem])
+            ob('folddown-shapes-' + elem, np.asarray(fold).shape == (len(want), Nv) and np.asarray(OSVB).shape == (len(want), Nsites, dim))
+            cf, cv = [], []
+            for r, ni in enumerate(want):
+                direct = 0
+                vb = np.zeros((Nsites, dim))
+                for OS in vs.vecpos[ni]:
+                    idx = getattr(ss.states[OS], attr)
+                    vb[idx] = field[(ni, OS)]
+                    for j in range(Nv):
+                        for s_ in vs.vecpos[j]:
+                            if getattr(ss.states[s_], attr) == idx:
+                                direct = direct + float(np.dot(field[(ni, OS)], field[(j, s_)])) * a[j]
+                cf.append(harness.close([np.dot(np.asarray(fold)[r], a)], [direct], tol))
+                cv.append(bool(np.allclose(np.asarray(OSVB)[r], vb, atol=1e-9)))
+            if want:
+                ob('folddown-' + elem, core.And(*cf) if sym else all(cf))
+                ob('folddown-vectorbasis-' + elem, all(cv))
+        if sym:
+            obs.append(('twin:%s' % name, harness.close([a[0]], [a[0] + 1e-6], tol)))
+        return obs
+    return fn
+
+
+def omega02_laws(case):
+    """omega0-reference parts of the omega1 expansions and the omega2 expansions (origin states removed / hijacked) against a
+    direct state-space assembly, contracted with SYMBOLIC omega0 / omega2 rates"""
+    def fn(src=None):
+        src = src or Src()
+        crys, chem, jn, ss, vs = build(case)
+        dim = crys.dim
+        name = 'omega02:' + case
+        sym = src.symbolic
+        Nv = vs.Nvstars
+        obs = []
+        om1_jn, om1_jt, om1_SP = ss.jumpnetwork_omega1()
+        om2_jn, om2_jt, om2_SP = ss.jumpnetwork_omega2()
+        n0 = len(ss.jumpnetwork_index)
+        w0 = src.reals('w0', n0, 0, 2)
+        w2 = src.reals('w2', max(len(om2_jn), 1), 0, 2)
+        info = src.info(replayer='omega02', extra={'case': case})
+        tol = 1e-9
+
+        def ob(n, val):
+            obs.append(('%s:%s' % (name, n), val, dict(info, sig='omega02:' + n)))
+        field = {}
+        for i in range(Nv):
+            for s_, vv in zip(vs.vecpos[i], vs.vecvec[i]):
+                field[(i, s_)] = np.asarray(vv, dtype=float)
+
+        def close_all(A, B):
+            return harness.close(np.asarray(A, dtype=object).ravel(), np.asarray(B, dtype=object).ravel(), tol)
+        if om1_jn:
+            r0, r0e, r1, r1e = vs.rateexpansions(om1_jn, om1_jt)
+            b0, b1 = vs.biasexpansions(om1_jn, om1_jt)
+            D0e, D1e = vs.bareexpansions(om1_jn, om1_jt)
+            ob('omega1-shapes', np.asarray(r0).shape == (Nv, Nv, n0) and np.asarray(r0e).shape == (Nv, n0) and np.asarray(b0).shape == (Nv, n0)
+               and np.asarray(D0e).shape == (dim, dim, n0) and np.asarray(r1).shape == (Nv, Nv, len(om1_jn)))
+            W = np.zeros((Nv, Nv), dtype=object)
+            E = np.zeros(Nv, dtype=object)
+            B = np.zeros(Nv, dtype=object)
+            D = np.zeros((dim, dim), dtype=object)
+            for k, jl in enumerate(om1_jn):
+                wk = w0[om1_jt[k]]
+                for (IS, FS), dx in jl:
+                    D = D + 0.5 * np.outer(dx, dx) * wk
+                    for i in range(Nv):
+                        if (i, IS) in field:
+                            vi = field[(i, IS)]
+                            E[i] = E[i] - float(np.dot(vi, vi)) * wk
+                            B[i] = B[i] + float(np.dot(vi, dx)) * wk
+                            for j in range(Nv):
+                                if (j, FS) in field:
+                                    W[i, j] = W[i, j] + float(np.dot(vi, field[(j, FS)])) * wk
+            ob('rate0expansion', close_all(np.dot(r0, w0), W))
+            ob('rate0escape', close_all(np.dot(r0e, w0), E))
+            ob('bias0expansion', close_all(np.dot(b0, w0), B))
+            ob('D0expansion', close_all(np.dot(D0e, w0), D))
+        if om2_jn:
+            r0, r0e, r2, r2e = vs.rateexpansions(om2_jn, om2_jt, omega2=True)
+            b0, b2 = vs.biasexpansions(om2_jn, om2_jt, omega2=True)
+            D0e, D2e = vs.bareexpansions(om2_jn, om2_jt)
+            W2 = np.zeros((Nv, Nv), dtype=object)
+            E2 = np.zeros(Nv, dtype=object)
+            B2 = np.zeros(Nv, dtype=object)
+            D2 = np.zeros((dim, dim), dtype=object)
+            W0 = np.zeros((Nv, Nv), dtype=object)
+            E0 = np.zeros(Nv, dtype=object)
+            B0 = np.zeros(Nv, dtype=object)
+            D0 = np.zeros((dim, dim), dtype=object)
+            for k, jl in enumerate(om2_jn):
+                wk, w0k = w2[k], w0[om2_jt[k]]
+                for (IS, FS), dx in jl:
+                    D2 = D2 + 0.5 * np.outer(dx, dx) * wk
+                    D0 = D0 + 0.5 * np.outer(dx, dx) * w0k
+                    OS = ss.stateindex(stars.PairState.zero(ss.states[IS].i, dim))
+                    for i in range(Nv):
+                        if (i, IS) in field:
+                            vi = field[(i, IS)]
+                            E2[i] = E2[i] - float(np.dot(vi, vi)) * wk
+                            E0[i] = E0[i] - float(np.dot(vi, vi)) * w0k
+                            B2[i] = B2[i] + float(np.dot(vi, dx)) * wk
+                            B0[i] = B0[i] + float(np.dot(vi, dx)) * w0k
+                            for j in range(Nv):
+                                if (j, FS) in field:
+                                    W2[i, j] = W2[i, j] + float(np.dot(vi, field[(j, FS)])) * wk
+                                if OS is not None and (j, OS) in field:
+                                    # without the solute the vacancy jumps onto the solute site: the origin state
+                                    c = float(np.dot(vi, field[(j, OS)]))
+                                    W0[i, j] = W0[i, j] + c * w0k
+                                    W0[j, i] = W0[j, i] + c * w0k
+                                    E0[j] = E0[j] - float(np.dot(field[(j, OS)], field[(j, OS)])) * w0k
+                    if OS is not None:
+                        for j in range(Nv):
+                            if (j, OS) in field:
+                                B2[j] = B2[j] - float(np.dot(field[(j, OS)], dx)) * wk
+                                B0[j] = B0[j] - float(np.dot(field[(j, OS)], dx)) * w0k
+            ob('rate2expansion', close_all(np.dot(r2, w2[:len(om2_jn)]), W2))
+            ob('rate2escape', close_all(np.dot(r2e, w2[:len(om2_jn)]), E2))
+            ob('bias2expansion', close_all(np.dot(b2, w2[:len(om2_jn)]), B2))
+            ob('D2expansion', close_all(np.dot(D2e, w2[:len(om2_jn)]), D2))
+            ob('rate0expansion-omega2', close_all(np.dot(r0, w0), W0))
+            ob('rate0escape-omega2', close_all(np.dot(r0e, w0), E0))
+            ob('bias0expansion-omega2', close_all(np.dot(b0, w0), B0))
+            ob('D0expansion-omega2', close_all(np.dot(D0e, w0), D0))
+        if sym:
+            obs.append(('twin:%s' % name, harness.close([w0[0]], [w0[0] + 1e-6], tol)))
+        return obs
+    return fn
+
+
 QUICK = ['square-2', 'sc-1', 'fcc-1', 'honeycomb-1', 'rect2-1', 'p222-1', 'oblique-c1-1', 'hcp-1']
 THOROUGH = QUICK + ['square-1', 'honeycomb-2', 'tric-c1-1', 'sc-2', 'fcc-2']
 
@@ -205,6 +379,8 @@ def sections(tier):
     for c in (QUICK if tier == 'quick' else THOROUGH):
         secs.append(S('basis:' + c, basis_laws(c), budget_s=175 if tier == 'quick' else 1200, replayer='basis', config=c, maxpaths=4, timeout_ms=30000))
         secs.append(S('expand:' + c, expansion_laws(c), budget_s=175 if tier == 'quick' else 1200, replayer='expand', config=c, maxpaths=4, timeout_ms=60000))
+        secs.append(S('outer:' + c, outer_laws(c), budget_s=175 if tier == 'quick' else 1200, replayer='outer', config=c, maxpaths=4, timeout_ms=60000))
+        secs.append(S('omega02:' + c, omega02_laws(c), budget_s=175 if tier == 'quick' else 1200, replayer='omega02', config=c, maxpaths=4, timeout_ms=60000))
     return secs
 
 
@@ -213,11 +389,13 @@ def main():
     warnings.simplefilter('ignore')
     if REPLAY:
         run.replay_main('C25', {'basis': lambda rec: harness.run_laws_concrete(basis_laws(rec['extra']['case']), rec),
-                                'expand': lambda rec: harness.run_laws_concrete(expansion_laws(rec['extra']['case']), rec)})
+                                'expand': lambda rec: harness.run_laws_concrete(expansion_laws(rec['extra']['case']), rec),
+                                'outer': lambda rec: harness.run_laws_concrete(outer_laws(rec['extra']['case']), rec),
+                                'omega02': lambda rec: harness.run_laws_concrete(omega02_laws(rec['extra']['case']), rec)})
     V = stars.VectorStarSet
     chk = run.Check(
         'C25',
-        functions=[loader.func_hash(f) for f in (V.generate, V.generateouter, V.GFexpansion, V.rateexpansions, V.biasexpansions, V.bareexpansions,
+        functions=[loader.func_hash(f) for f in (V.generate, V.generateouter, V.GFexpansion, V.rateexpansions, V.biasexpansions, V.bareexpansions, V.originstateVectorBasisfolddown, stars.StarSet.jumpnetwork_omega2,
                                                  stars.StarSet.jumpnetwork_omega1, stars.PairState.g, crystal.Crystal.VectorBasis, crystal.Crystal.vectlist)],
         assumptions=[
             'crystals / networks / shells enumerated (square, SC, FCC, HCP, honeycomb, rect-2-site with origin states, a chiral P222 crystal, '
